@@ -14,7 +14,8 @@ from . import carving_space
 PROP = "C11"
 # exact maps; the last two make the spread tiny relative to the magnitude / the magnitude tiny (absolute or relative
 # closeness tests on cut points would collapse distinct values)
-AFFINE = [(2.0, 0.0), (0.5, 0.0), (1.0, 3.0), (4.0, -7.0), (1024.0, 0.0), (1.0, float(2**20)), (2.0**-30, 0.0)]
+# (x+7 and x+97 move the cut points across a power of ten: the interval labels then sort differently as strings)
+AFFINE = [(2.0, 0.0), (0.5, 0.0), (1.0, 3.0), (4.0, -7.0), (1024.0, 0.0), (1.0, float(2**20)), (2.0**-30, 0.0), (1.0, 7.0), (1.0, 97.0)]
 # order-preserving renamings of NAME_SETS[0] = m0..m7 (alphabetical order == rank)
 RENAMES = [
     {f"m{i}": f"n{i}x" for i in range(8)},
@@ -212,9 +213,15 @@ def enumerate_cases(tier, seed):
     # search falls back to 'one bucket for the remaining values' there)
     big, t0, t1 = (4, 4), (1, 0), (0, 1)
     sparse = [[big, t0, t1, big], [big, t1, t0, big], [big, t0, t1], [t0, t1, big], [big, t0, t1, t0, big], [(6, 2), t1, t1, (2, 6)], [big, t0, t0, t1, (6, 2)]]
+    # a rare value between two frequent ones (its neighbour is chosen by target rate) and a sparse, not over-represented upper tail
+    sparse += [[big, t0, (6, 2), t1, t0], [(6, 2), t1, (2, 6), t0, t1], [(2, 6), t0, (6, 2), t1], [big, t1, (6, 2), t1, t0, t1], [(6, 2), (1, 1), (2, 6), t0, t1], [(2, 6), (1, 1), (6, 2), (1, 1), t1]]
+    # ... and an upper tail of >= 5 single-row values (cut by a real quantile, so that even the last interval is observed)
+    for a, b in (((6, 2), (2, 6)), ((2, 6), (6, 2)), ((4, 4), (6, 2))):
+        for r in (t0, t1):
+            sparse += [[a, r, b, t0, t1, t0, t1, t1], [a, r, b, t1, t0, t1, t0, t0, t1], [a, b, r, a, t0, t1, t1, t0, t1]]
     for cells in sparse:
         for nan in (None, (2, 2)):
-            cases.append({"carver": "binary", "kind": "QNT", "cells": [list(c) for c in cells], "nan": list(nan) if nan else None, "dev": None, "cfg": {"sort_by": "tschuprowt", "max_n_mod": 4, "min_freq": 0.1, "min_freq_mod": None, "output_dtype": "float", "dropna": True}, "seed": seed, "tier": tier})
+            cases.append({"carver": "binary", "kind": "QNT", "cells": [list(c) for c in cells], "nan": list(nan) if nan else None, "dev": None, "cfg": {"sort_by": "cramerv", "max_n_mod": 5, "min_freq": 0.1, "min_freq_mod": None, "output_dtype": "float", "dropna": True}, "seed": seed, "tier": tier})
     if tier != "quick":
         # tiny frames (N <= 6): all row permutations
         for cells in [[(1, 1), (1, 1), (0, 1)], [(1, 0), (0, 1), (1, 1)], [(2, 0), (1, 1), (0, 2)], [(1, 1), (2, 1)], [(1, 0), (1, 1), (0, 1), (1, 0)]]:
